@@ -2,7 +2,7 @@
 (* emg3d.models.Model as a state machine (models.py 106-141, 547-591 and the *)
 (* property setters): which of the five parameter arrays exist, the          *)
 (* anisotropy case, and the validation of values on construction and on      *)
-(* assignment.  Not tied to a claimed property (C14 is not_applicable); it   *)
+(* assignment.  Decides the rejection clause of C14 (harness/c14.py); it     *)
 (* covers the discrete clause of C14: non-positive or non-finite             *)
 (* conductivities, permeabilities and permittivities are rejected at         *)
 (* construction and on assignment, and a rejected assignment changes         *)
